@@ -4,7 +4,7 @@ from collections import OrderedDict
 import click
 
 from .. import Workflow
-from ..core import CachedFilesystem, Graph, pass_context
+from ..core import CachedFilesystem, Graph, _flatten, pass_context
 from ..filtering import filter_names
 
 
@@ -34,9 +34,9 @@ def print_pretty(targets, graph):
         print_label("Name:")
         print_value(target.name)
         print_label("Inputs:")
-        print_list(target.inputs, as_filename=True)
+        print_list(_flatten(target.inputs), as_filename=True)
         print_label("Outputs:")
-        print_list(target.outputs, as_filename=True)
+        print_list(_flatten(target.outputs), as_filename=True)
         print_label("Dependents:")
         print_list([target.name for target in graph.dependents[target]])
         print_label("Spec:")
